@@ -500,6 +500,134 @@ Proof.
   - destruct (accepted_failed_start _ _ _ H) as (_ & E & _). subst rest. split; reflexivity.
 Qed.
 
+(* ------------------------------------------------------------------ what the cut into sections preserves *)
+
+Lemma sec_evs_mk w w0 evs : sec_evs w (mk_sec w0 evs) = if Nat.eqb w0 w then evs else [].
+Proof.
+  unfold mk_sec. destruct (Nat.eqb w0 close_actor) eqn:E; cbn [sec_evs].
+  - apply Nat.eqb_eq in E. subst w0. rewrite (Nat.eqb_sym w close_actor). reflexivity.
+  - destruct (Nat.eqb w0 w) eqn:F; cbn; auto. apply Nat.eqb_eq in F. subst w0. rewrite E. reflexivity.
+Qed.
+
+Lemma is_sec_mk w evs : is_sec (mk_sec w evs) = true.
+Proof. unfold mk_sec. destruct (Nat.eqb w close_actor); reflexivity. Qed.
+
+Definition open_evs (w : nat) (open : option (nat * list ev)) : list ev :=
+  match open with Some (w0, evs) => if Nat.eqb w0 w then evs else [] | None => [] end.
+
+Lemma filter_plain l : plain l -> filter (fun o => negb (is_sec o)) l = l.
+Proof. induction 1; cbn; auto. rewrite H. cbn. now rewrite IHForall. Qed.
+
+Lemma sec_evs_plain w l : plain l -> flat_map (sec_evs w) l = [].
+Proof. induction 1; cbn; auto. rewrite IHForall, app_nil_r. destruct x; try discriminate; reflexivity. Qed.
+
+Lemma flush_obs open pend out : plain pend ->
+  filter (fun o => negb (is_sec o)) (rev (flush open pend out)) =
+  filter (fun o => negb (is_sec o)) (rev out) ++ rev pend.
+Proof.
+  intros P. assert (Pr : plain (rev pend)) by (apply Forall_rev; exact P).
+  unfold flush. destruct open as [[w evs]|].
+  - rewrite rev_app_distr. cbn [rev]. rewrite !filter_app. cbn [filter]. rewrite is_sec_mk. cbn.
+    rewrite app_nil_r, (filter_plain _ Pr). reflexivity.
+  - rewrite rev_app_distr, filter_app, (filter_plain _ Pr). reflexivity.
+Qed.
+
+Lemma flush_evs w open pend out : plain pend ->
+  flat_map (sec_evs w) (rev (flush open pend out)) = flat_map (sec_evs w) (rev out) ++ open_evs w open.
+Proof.
+  intros P. assert (Pr : plain (rev pend)) by (apply Forall_rev; exact P).
+  unfold flush. destruct open as [[w0 evs]|]; cbn [open_evs].
+  - rewrite rev_app_distr. cbn [rev]. rewrite !flat_map_app. cbn [flat_map].
+    rewrite sec_evs_mk, (sec_evs_plain _ _ Pr), !app_nil_r. reflexivity.
+  - rewrite rev_app_distr, flat_map_app, (sec_evs_plain _ _ Pr), app_nil_r. reflexivity.
+Qed.
+
+Definition wfp (open : option (nat * list ev)) (pend : list obs) : Prop :=
+  match open with None => pend = [] | Some _ => True end.
+
+Lemma group_aux_obs : forall l open pend out, plain (log_obs l) -> plain pend -> wfp open pend ->
+  filter (fun o => negb (is_sec o)) (group_aux l open pend out) =
+  filter (fun o => negb (is_sec o)) (rev out) ++ rev pend ++ log_obs l.
+Proof.
+  induction l as [|r t IH]; intros open pend out Pl Pp Wf; cbn [group_aux].
+  - rewrite flush_obs by auto. cbn. now rewrite app_nil_r.
+  - destruct r as [o|w e].
+    + cbn [log_obs flat_map app] in Pl |- *. inversion Pl as [|? ? Ho Pt]; subst. fold (log_obs t) in *.
+      destruct open as [[w0 evs]|].
+      * destruct (breaks w0 o).
+        -- rewrite IH by (cbn; auto; constructor). cbn [rev]. rewrite filter_app, flush_obs by auto.
+           cbn [filter]. rewrite Ho. cbn. rewrite <- ?app_assoc; rewrite <- ?app_assoc; reflexivity.
+        -- rewrite IH by (cbn; auto; constructor; auto). cbn [rev]. rewrite <- ?app_assoc; rewrite <- ?app_assoc; reflexivity.
+      * cbn in Wf; subst pend; cbn [rev app].
+        rewrite IH by (cbn; auto; constructor). cbn [rev]. rewrite filter_app. cbn [filter]. rewrite Ho. cbn.
+        rewrite <- ?app_assoc; rewrite <- ?app_assoc; reflexivity.
+    + cbn [log_obs flat_map app] in Pl |- *. fold (log_obs t) in *.
+      assert (Pn : plain []) by constructor.
+      destruct open as [[w0 evs]|].
+      * destruct (Nat.eqb w w0 && sec_continues evs e).
+        -- destruct (sec_unfinished (evs ++ [e])).
+           ++ apply IH; cbn; auto.
+           ++ rewrite IH by (cbn; auto). cbn [rev app]. rewrite flush_obs by auto. rewrite <- ?app_assoc; rewrite <- ?app_assoc; reflexivity.
+        -- destruct (sec_unfinished [e]).
+           ++ rewrite IH by (cbn; auto). cbn [rev app]. rewrite flush_obs by auto. rewrite <- ?app_assoc; rewrite <- ?app_assoc; reflexivity.
+           ++ rewrite IH by (cbn; auto). cbn [rev app]. rewrite filter_app, flush_obs by auto.
+              cbn [filter]. rewrite is_sec_mk. cbn. rewrite app_nil_r. rewrite <- ?app_assoc; rewrite <- ?app_assoc; reflexivity.
+      * cbn in Wf; subst pend; cbn [rev app].
+        destruct (sec_unfinished [e]).
+        -- rewrite IH by (cbn; auto). rewrite <- ?app_assoc; rewrite <- ?app_assoc; reflexivity.
+        -- rewrite IH by (cbn; auto). cbn [rev app]. rewrite filter_app. cbn [filter]. rewrite is_sec_mk. cbn.
+           rewrite app_nil_r. rewrite <- ?app_assoc; rewrite <- ?app_assoc; reflexivity.
+Qed.
+
+Lemma group_aux_evs w : forall l open pend out, plain (log_obs l) -> plain pend -> wfp open pend ->
+  flat_map (sec_evs w) (group_aux l open pend out) =
+  flat_map (sec_evs w) (rev out) ++ open_evs w open ++ actor_events w l.
+Proof.
+  induction l as [|r t IH]; intros open pend out Pl Pp Wf; cbn [group_aux].
+  - rewrite flush_evs by auto. cbn. now rewrite app_nil_r.
+  - destruct r as [o|w1 e].
+    + cbn [log_obs flat_map app] in Pl. inversion Pl as [|? ? Ho Pt]; subst. fold (log_obs t) in *.
+      cbn [actor_events flat_map app]. fold (actor_events w t).
+      assert (So : sec_evs w o = []) by (destruct o; try discriminate; reflexivity).
+      destruct open as [[w0 evs]|].
+      * destruct (breaks w0 o).
+        -- rewrite IH by (cbn; auto; constructor). cbn [rev open_evs app]. rewrite flat_map_app, flush_evs by auto.
+           cbn [flat_map]. rewrite So. cbn. rewrite app_nil_r, <- !app_assoc. rewrite <- ?app_assoc; rewrite <- ?app_assoc; reflexivity.
+        -- rewrite IH by (cbn; auto; constructor; auto). rewrite <- ?app_assoc; rewrite <- ?app_assoc; reflexivity.
+      * cbn in Wf; subst pend; cbn [rev app].
+        rewrite IH by (cbn; auto; constructor). cbn [rev open_evs app]. rewrite flat_map_app. cbn [flat_map].
+        rewrite So. cbn. rewrite app_nil_r. rewrite <- ?app_assoc; rewrite <- ?app_assoc; reflexivity.
+    + cbn [log_obs flat_map app] in Pl. fold (log_obs t) in *. cbn [actor_events flat_map]. fold (actor_events w t).
+      assert (Pn : plain []) by constructor.
+      destruct open as [[w0 evs]|].
+      * destruct (Nat.eqb w1 w0 && sec_continues evs e) eqn:C.
+        -- apply andb_prop in C. destruct C as [C _]. apply Nat.eqb_eq in C. subst w1.
+           destruct (sec_unfinished (evs ++ [e])).
+           ++ rewrite IH by (cbn; auto). cbn [open_evs]. destruct (Nat.eqb w0 w); cbn; rewrite <- ?app_assoc; rewrite <- ?app_assoc; reflexivity.
+           ++ rewrite IH by (cbn; auto). cbn [open_evs app]. rewrite flush_evs by auto. cbn [open_evs].
+              destruct (Nat.eqb w0 w); cbn; rewrite <- ?app_assoc; rewrite <- ?app_assoc; reflexivity.
+        -- destruct (sec_unfinished [e]).
+           ++ rewrite IH by (cbn; auto). rewrite flush_evs by auto. cbn [open_evs].
+              destruct (Nat.eqb w0 w), (Nat.eqb w1 w); cbn; rewrite ?app_nil_r; rewrite <- ?app_assoc; rewrite <- ?app_assoc; reflexivity.
+           ++ rewrite IH by (cbn; auto). cbn [rev open_evs app]. rewrite flat_map_app, flush_evs by auto.
+              cbn [flat_map open_evs]. rewrite sec_evs_mk.
+              destruct (Nat.eqb w0 w), (Nat.eqb w1 w); cbn; rewrite ?app_nil_r; rewrite <- ?app_assoc; rewrite <- ?app_assoc; reflexivity.
+      * cbn in Wf; subst pend; cbn [rev app].
+        destruct (sec_unfinished [e]).
+        -- rewrite IH by (cbn; auto). cbn [open_evs]. destruct (Nat.eqb w1 w); cbn; rewrite ?app_nil_r; rewrite <- ?app_assoc; rewrite <- ?app_assoc; reflexivity.
+        -- rewrite IH by (cbn; auto). cbn [rev open_evs app]. rewrite flat_map_app. cbn [flat_map]. rewrite sec_evs_mk.
+           destruct (Nat.eqb w1 w); cbn; rewrite ?app_nil_r; rewrite <- ?app_assoc; rewrite <- ?app_assoc; reflexivity.
+Qed.
+
+Lemma group_preserves l : plain (log_obs l) ->
+  filter (fun o => negb (is_sec o)) (group l) = log_obs l /\
+  forall w, flat_map (sec_evs w) (group l) = actor_events w l.
+Proof.
+  intros P. unfold group. split.
+  - rewrite group_aux_obs by (cbn; auto; constructor). reflexivity.
+  - intros w. rewrite group_aux_evs by (cbn; auto; constructor). reflexivity.
+Qed.
+
 (* ------------------------------------------------------------------ completeness, tested
 
    The acceptor searches the unobserved sections in a normal form (hidden Enter in the closure, a
